@@ -229,3 +229,5 @@ REG.stub(("method", "conc:regex", "search"), const_search)
 
 # contextlib.nullcontext(): a context manager that does nothing
 REG.stub("contextlib.nullcontext", lambda run, args, kwargs, node: Conc(("cm", (lambda: (args[0] if args else NONE)), (lambda exc: False))))
+
+REG.stub(("method", "ReMatch", "span"), lambda run, obj, args, kwargs, node: VTuple([Val(TInt, MATCH.proj(obj.t, 0)), Val(TInt, MATCH.proj(obj.t, 1))]))
